@@ -14,6 +14,7 @@ import (
 	"github.com/markkurossi/mpc/compiler"
 	"github.com/markkurossi/mpc/compiler/utils"
 	"github.com/markkurossi/mpc/gmw"
+	"github.com/markkurossi/mpc/types"
 
 	"verifsim/gen"
 	"verifsim/sim/rt"
@@ -103,6 +104,43 @@ type sample struct {
 	Net     string
 }
 
+// deepChain is a two-party circuit whose AND depth is d: prev = AND(XOR(prev, in_a), one), d times,
+// with one = XNOR(in_0, in_0): a running parity that passes through d AND gates and forgets nothing
+// (an AND with an input bit would reset the chain whenever that bit is 0, and an error early in the
+// chain would be forgotten a few gates later).
+func deepChain(d int) *circuit.Circuit {
+	const nin = 16
+	c := &circuit.Circuit{}
+	ty := func(s string) types.Info {
+		ti, err := types.Parse(s)
+		if err != nil {
+			panic(err)
+		}
+		return ti
+	}
+	c.Inputs = circuit.IO{{Name: "a", Type: ty("uint8")}, {Name: "b", Type: ty("uint8")}}
+	c.Outputs = circuit.IO{{Name: "r", Type: ty("uint2")}}
+	prev := circuit.Wire(0)
+	w := circuit.Wire(nin)
+	add := func(op circuit.Operation, a, b circuit.Wire) circuit.Wire {
+		c.Gates = append(c.Gates, circuit.Gate{Op: op, Input0: a, Input1: b, Output: w})
+		c.Stats[op]++
+		w++
+		return w - 1
+	}
+	one := add(circuit.XNOR, 0, 0)
+	for i := 0; i < d; i++ {
+		x := add(circuit.XOR, prev, circuit.Wire((i*7+3)%nin))
+		prev = add(circuit.AND, x, one)
+	}
+	// the two result bits: the end of the chain and its complement-ish companion
+	x := add(circuit.XOR, prev, circuit.Wire(2))
+	add(circuit.XOR, x, circuit.Wire(9))
+	c.NumGates, c.NumWires = len(c.Gates), int(w)
+	c.AssignLevels(utils.TargetGMW)
+	return c
+}
+
 func (w *world) Run(t *rt.Tape, trace bool) *core.Result {
 	res := &core.Result{Reach: map[string]int{}}
 	core.BeginRun(t)
@@ -112,7 +150,16 @@ func (w *world) Run(t *rt.Tape, trace bool) *core.Result {
 	}
 	var circ *circuit.Circuit
 	var src string
-	if t.Choose(rt.SGen, 4) == 0 {
+	deep := false
+	if t.Choose(rt.SGen, map[string]int{"thorough": 100}[w.tier]+map[bool]int{true: 250}[w.tier != "thorough"]) == 0 {
+		deep = true
+		// a long sequential computation: an AND depth around 2^16 (iterated hashes and modular
+		// exponentiations compile to such chains; every level is a round of the protocol)
+		n = 2
+		circ = deepChain(65535 + t.Choose(rt.SGen, 70))
+		src = ""
+		res.Reach["circuit.and-depth-around-65536"]++
+	} else if t.Choose(rt.SGen, 4) == 0 {
 		circ, src = compiledCircuit(t, n)
 	}
 	if circ == nil {
@@ -245,7 +292,11 @@ func (w *world) Run(t *rt.Tape, trace bool) *core.Result {
 	res.Sample = smp
 	res.Class = fmt.Sprintf("n=%d", n)
 
-	rr := rt.Run(rt.Config{Trace: trace, NoProgress: 3 * core.NoProgressDefault}, t, func() {
+	maxSteps := 0 // the kernel's default
+	if deep {
+		maxSteps = 400_000_000 // 65 thousand protocol rounds
+	}
+	rr := rt.Run(rt.Config{Trace: trace, NoProgress: 3 * core.NoProgressDefault, MaxSteps: maxSteps}, t, func() {
 		nw, err := gmw.CreateNetwork(ps[0].addr, n)
 		ps[0].nw, ps[0].joinErr = nw, err
 		for _, p := range ps {
